@@ -62,7 +62,7 @@ func c13faultSite(x *lib.Exec) string {
 			continue
 		}
 		kind := ""
-		for _, k := range []string{"fail-after-reading-body", "fail-before", "fail-after", "crash-before", "crash-after"} {
+		for _, k := range []string{"fail-after-reading-body", "fail-slow", "fail-before", "fail-after", "crash-before", "crash-after"} {
 			if strings.HasPrefix(g, k+" ") {
 				kind = k
 				break
@@ -198,12 +198,12 @@ func c13scenario(s c13scn) *lib.Scenario {
 			if c.Write {
 				return []lib.Decision{lib.CrashBefore, lib.CrashAfter, lib.FailBefore, lib.FailAfter, lib.FailConsumed}
 			}
-			return []lib.Decision{lib.FailBefore}
+			return []lib.Decision{lib.FailBefore, lib.FailSlow}
 		case 1:
 			if c.Write {
 				return []lib.Decision{lib.FailBefore, lib.FailAfter, lib.FailConsumed}
 			}
-			return []lib.Decision{lib.FailBefore}
+			return []lib.Decision{lib.FailBefore, lib.FailSlow}
 		case 3:
 			if c.Write {
 				return []lib.Decision{lib.FailBefore, lib.FailAfter}
@@ -273,7 +273,7 @@ func TestC13(t *testing.T) {
 	if lib.Thorough() {
 		fb = 2
 	}
-	rep.Rule = fmt.Sprintf("history: 3 repos over 2 contexts sharing deduplicated blobs, a deleted bundle (orphaned blobs), optionally a bundle deleted earlier whose content is uploaded again later; index build with chunk size 2 (and, history 'many', chunk size 1 over 15 keys: more than 10 chunks, listed out of numeric order on resume) where EVERY store call is a fault point (reads: transient error; writes: transient before / after / after-reading-the-body, crash before / after) and a 5-minute clock tick may fire the chunk uploader at any step; after a crash the build is resumed; then one of 4 uploads (none / fresh / sharing indexed blobs / re-using orphaned blobs); then delete-unused with a transient fault on any of its store calls; <=%d deviations per execution; oracle: if the commands reported success, every bundle committed before the index and the bundle uploaded after it download with their original bytes; distinct = distinct (scenario, fault site, outcome)", fb)
+	rep.Rule = fmt.Sprintf("history: 3 repos over 2 contexts sharing deduplicated blobs, a deleted bundle (orphaned blobs), optionally a bundle deleted earlier whose content is uploaded again later; index build with chunk size 2 (and, history 'many', chunk size 1 over 15 keys: more than 10 chunks, listed out of numeric order on resume) where EVERY store call is a fault point (reads: transient error, or a request that hangs 5 minutes and then fails; writes: transient before / after / after-reading-the-body, crash before / after) and a 5-minute clock tick may fire the chunk uploader at any step; after a crash the build is resumed; then one of 4 uploads (none / fresh / sharing indexed blobs / re-using orphaned blobs); then delete-unused with a transient fault on any of its store calls; <=%d deviations per execution; oracle: if the commands reported success, every bundle committed before the index and the bundle uploaded after it download with their original bytes; distinct = distinct (scenario, fault site, outcome)", fb)
 	var scs []*lib.Scenario
 	for _, h := range []string{"base", "orphan", "many"} {
 		for _, u := range []string{"none", "fresh", "shares-indexed", "reuses-orphan"} {
